@@ -60,10 +60,14 @@ SendClass(sc, s) ==
            THEN "lost-same-id" ELSE "lost")
   ELSE ""
 
-\* of two delayed events of one timer (sender) to one receiver, the one certainly due earlier is processed first
+\* of two delayed events of one timer (sender) to one receiver, the one certainly due earlier is processed first.
+\* The event received first must itself have gone through the timer: an immediate send executed after a timer had become
+\* due may overtake that timer's event when the timer thread is late (allowed: "no earlier than"), whereas a timer event
+\* received before an immediate one that was executed before the timer was due would have been early.
 OrderBad(sc) == \E a, b \in DOMAIN sc.recvs : a < b /\ sc.recvs[a].sess = sc.recvs[b].sess /\
                   \E sa, sb \in DOMAIN sc.sends : sc.sends[sa].inst = sc.recvs[a].inst /\ sc.sends[sb].inst = sc.recvs[b].inst
                        /\ sc.sends[sa].sess = sc.sends[sb].sess /\ Due1(sc.sends[sb]) < Due0(sc.sends[sa])
+                       /\ DelayMs(sc.sends[sa]) > 0
 
 ScenClass(sc) ==
   IF \E j \in DOMAIN sc.recvs : ~\E s \in DOMAIN sc.sends : sc.sends[s].inst = sc.recvs[j].inst THEN "unknown-delivery"
